@@ -84,7 +84,9 @@ def strategy(tier):
     def with_any(spec):
         extra = {"kind": "any", "key": "zzany", "req": False, "validator": None, "opts": {}, "default": {"mode": "none"}}
         return dict(spec, children=[c for c in spec["children"] if c["key"] != "zzany"] + [extra])
-    return worlds.schema_spec(tier).map(with_any).flatmap(hist)
+    # (C02's fixed extras as well: secrets / bytes / digests inside list items, a config type and a nested schema give the
+    # serialisation its deep steps - nested to_basic calls, several key contexts and cipher calls per save)
+    return worlds.schema_spec(tier).map(c02._augment).map(with_any).flatmap(hist)
 
 
 class Injector:
